@@ -190,6 +190,9 @@ CLAIMED["C04"]["text"] += (" Independent judge on the implementation alone: the 
     "unchanged code (known finding E17, second face): a key deleted by an ingested tombstone reads its old value again after a reopen once a last-level compaction has evicted the "
     "tombstone (C04_reopen_identity_refuted; corpus/C04/e17_ingested_tombstone_resurrected.txt) — reported as KNOWN-FINDING, every other change of content across a reopen is a violation.")
 
+CLAIMED["C01"]["text"] += (" C01_db_reads_agree lifts this to the database model: for EVERY sequence of keyspace creation, single writes, committed batches / transaction commits, clear, "
+    "rotation, worker steps (flush, journal sealing, maintenance), major compaction with any filter and bulk ingestion, every keyspace's point reads equal its scan entries (DbOrderP.v).")
+
 m = {"version": 1, "setup_cmd": "./setup.sh",
      "hooks": {"guard": "cargo feature fjall_verif",
                "enable": "harness/Cargo.toml depends on fjall = { path = \"/repo\", features = [\"fjall_verif\"] }",
